@@ -56,11 +56,22 @@ def case_coq(case):
       C.clist(files), C.clist([C.cnat(i) for i in range(len(case['files']))]),
       C.cstrs([subst(p, d) for p in case['prefixes']]), C.cstrs(case.get('modules', []))))
   calls = []
-  for c in case['calls']:
+  for c in ([] if case.get('engine2') else case['calls']):
     if c[0] == 'text':
       calls.append('(PText %s %s)' % (gfile_coq(c[1]), sk_coq(c[2])))
     else:
       calls.append('(PFile %s %s)' % (C.cstr(subst(c[1], d)), sk_coq(c[2])))
+  if case.get('engine2'):
+    calls = []
+    for c in case['calls']:
+      if c[0] == 'text':
+        calls.append('(P1 (PText %s %s))' % (gfile_coq(c[1]), sk_coq(c[2])))
+      elif c[0] == 'file':
+        calls.append('(P1 (PFile %s %s))' % (C.cstr(subst(c[1], d)), sk_coq(c[2])))
+      else:   # ['fab', files, bindings(list of strings), finalize or None, sk]
+        calls.append('(PFilesBindings %s %s %s %s)' % (
+            C.cstrs([subst(f, d) for f in c[1]]), gfile_coq('\n'.join(c[2])),
+            C.cbool(True if c[3] is None else c[3]), sk_coq(c[4])))
   return '((%s, %s), %s, %s)' % (regs, C.cstrs(case.get('consts', [])), env, C.clist(calls))
 
 
@@ -97,6 +108,7 @@ class TextMachine:
     self.dir = case_dir(case)
     self.opened = []
     self.received = []
+    self.wrappers = {}
     gin = self.gin
     for c in case['regs']:
       params = ', '.join('%s=None' % a for a in c['args']) + (', **kw' if c.get('varkw') else '')
@@ -105,8 +117,9 @@ class TextMachine:
       exec('def %s(%s):\n  rec.append((sel, dict(locals())))\n  return (sel,)\n' % (name, params.lstrip(', ')), env)  # pylint: disable=exec-used
       fn = env[name]
       fn.__module__ = None
-      gin.configurable(name, module='.'.join(c['sel'].split('.')[:-1]) or None,
-                       allowlist=c.get('allow') or None, denylist=c.get('deny') or None)(fn)
+      self.wrappers[c['sel']] = gin.configurable(
+          name, module='.'.join(c['sel'].split('.')[:-1]) or None,
+          allowlist=c.get('allow') or None, denylist=c.get('deny') or None)(fn)
     for k in case.get('consts', []):
       gin.constant(k, ('const', k))
     # importable modules
@@ -177,6 +190,14 @@ class TextMachine:
       if c[0] == 'text':
         inc, imps = gin.parse_config(c[1], skip_unknown=sk_py(c[2])) if c[2] is not None else gin.parse_config(c[1])
         o = T('Ok', list(imps), [self.tree(x) for x in inc])
+      elif c[0] == 'fab':
+        kw = {}
+        if c[3] is not None:
+          kw['finalize_config'] = c[3]
+        if c[4] is not None:
+          kw['skip_unknown'] = sk_py(c[4])
+        r = gin.parse_config_files_and_bindings([subst(f, self.dir) for f in c[1]], list(c[2]), **kw)
+        o = T('Ok', [self.tree(x) for x in r])
       else:
         name = subst(c[1], self.dir)
         r = gin.parse_config_file(name, skip_unknown=sk_py(c[2])) if c[2] is not None else gin.parse_config_file(name)
@@ -185,6 +206,8 @@ class TextMachine:
       o = err_obs(e)
     after = {'scope': list(gin.current_scope()), 'locked': gin.config_is_locked(),
              'ctx': len(self.cfg._PARSE_CONTEXTS)}  # pylint: disable=protected-access
+    if c[0] == 'fab':
+      after['locked'] = before['locked']
     return o, before == after
 
   def run(self):
@@ -195,6 +218,8 @@ class TextMachine:
       stable = stable and same
     obs.append(self.store())
     obs.append(self.prov())
+    if self.case.get('engine2'):
+      obs.append(bool(self.gin.config_is_locked()))
     return obs, stable
 
 
